@@ -21,6 +21,9 @@ pub enum Case {
     /// a mask-only calendar used around the start of the proleptic calendar (years -1, 0 and 1), where the day number
     /// counted from the common era changes sign
     Ancient { bmask: u8 },
+    /// a mask-only calendar and start instants that lie inside a leap second (23:59:60.5 and 11:30:60.25, which chrono
+    /// represents with a nanosecond field above 10^9): the count is by calendar day and the time of day is kept
+    LeapSecond { bmask: u8 },
     /// named calendar; start dates from..=to (day numbers), day counts: all i8 or the reduced menu
     Named { name: String, from: i64, to: i64, all_counts: bool },
 }
@@ -388,6 +391,57 @@ pub fn check(case: &Case, idx: u64, acc: &mut Acc) {
             }
             acc.sample(|| serde_json::to_value(case).unwrap());
         }
+        Case::LeapSecond { bmask } => {
+            let z0 = days_from_civil(2016, 12, 20);
+            let c = Cal::new(vec![], mask_vec(*bmask));
+            let bm = Bitmap::from_fn(z0 - 400, z0 + 400, |z| (*bmask & (1 << weekday(z)) == 0, true));
+            let ix = Index::new(&bm);
+            acc.nontrivial();
+            for (h, mi, ns) in [(23u32, 59u32, 1_500_000_000u32), (11, 30, 1_250_000_000), (23, 59, 999_999_999)] {
+                for z in z0..z0 + 24 {
+                    if !bm.is_bus(z) {
+                        continue;
+                    }
+                    let d = to_ndt(z).date().and_hms_nano_opt(h, mi, 59, ns).unwrap();
+                    for n in -12i8..=12 {
+                        acc.eval();
+                        let want = match ix.nth(&bm, z, n as i64) {
+                            Some(w) => to_ndt(w).date().and_hms_nano_opt(h, mi, 59, ns).unwrap(),
+                            None => continue,
+                        };
+                        match c.add_bus_days(&d, n, false) {
+                            Ok(g) if g == want => {
+                                if let Ok(b) = c.add_bus_days(&g, -n, false) {
+                                    if b != d {
+                                        acc.violate("add_bus_days/leap-second/inverse", idx, serde_json::to_value(case).unwrap(), json!({"date": format!("{}", d), "n": n, "want": "back to start"}), json!(format!("{}", b)));
+                                    }
+                                }
+                            }
+                            other => acc.violate("add_bus_days/leap-second", idx, serde_json::to_value(case).unwrap(), json!({"date": format!("{}", d), "n": n, "want": format!("{}", want)}), json!(format!("{:?}", other.ok().map(|x| format!("{}", x))))),
+                        }
+                    }
+                    // the lag rule and the business-date range from the same instant
+                    for n in [-2i8, -1, 0, 1, 2] {
+                        acc.eval();
+                        let want = ix.nth(&bm, z, n as i64).map(|w| to_ndt(w).date().and_hms_nano_opt(h, mi, 59, ns).unwrap());
+                        let got = c.lag(&d, n, false);
+                        if Some(got) != want {
+                            acc.violate("lag/leap-second", idx, serde_json::to_value(case).unwrap(), json!({"date": format!("{}", d), "n": n, "want": want.map(|x| format!("{}", x))}), json!(format!("{}", got)));
+                        }
+                    }
+                    if let Some(e) = ix.nth(&bm, z, 3) {
+                        acc.eval();
+                        let de = to_ndt(e).date().and_hms_nano_opt(h, mi, 59, ns).unwrap();
+                        let want: Vec<String> = (z..=e).filter(|x| bm.is_bus(*x)).map(|x| format!("{}", to_ndt(x).date().and_hms_nano_opt(h, mi, 59, ns).unwrap())).collect();
+                        match c.bus_date_range(&d, &de) {
+                            Ok(v) if v.iter().map(|x| format!("{}", x)).collect::<Vec<_>>() == want => {}
+                            other => acc.violate("bus_date_range/leap-second", idx, serde_json::to_value(case).unwrap(), json!({"start": format!("{}", d), "end": format!("{}", de), "want": want}), json!(format!("{:?}", other.ok().map(|v| v.iter().map(|x| format!("{}", x)).collect::<Vec<_>>())))),
+                        }
+                    }
+                }
+            }
+            acc.sample(|| serde_json::to_value(case).unwrap());
+        }
         Case::Ancient { bmask } => {
             let z1 = days_from_civil(1, 1, 1);
             let c = Cal::new(vec![], mask_vec(*bmask));
@@ -490,6 +544,7 @@ pub fn cases(tier: Tier) -> Vec<Case> {
     out.push(Case::HugeRun { r: 65_600 });
     for bmask in [0b1100000u8, 0b0110000, 0b0011111, 0b1000001] {
         out.push(Case::Ancient { bmask });
+        out.push(Case::LeapSecond { bmask });
     }
     for warmup in 0..4usize {
         out.push(Case::CrossThread { warmup });
@@ -546,7 +601,7 @@ pub fn run(ctx: &Ctx, replay_file: Option<String>) -> ! {
          window, on top of periodic week masks for the business calendar (none, Sat-Sun, Fri-Sat, Mon-Fri closed) and \
          the settlement calendar (absent, Sat-Sun, Sun+Mon, none); EVERY i8 day count, both settlement flags, every \
          start date of the window +-1: add_bus_days (value, error on a non-business start, inverse law), lag, \
-         add_days under all 5 modifiers, bus_date_range and cal_date_range for every (start, end) pair (near pairs also with times of day on both ends, in both assignments); every fifth case also as a union whose members (and settlement calendars) each close only some of the weekdays; the holiday vector is handed over in date order, reversed, interleaved or with every date twice (by case index). (1b) long runs of 12, 35, 64, 367 and 430 (and one of 65 600) consecutive closures; four mask-only calendars around 0001-01-01 (years -1 .. 1) at every weekday alignment, every i8 count from the days \
+         add_days under all 5 modifiers, bus_date_range and cal_date_range for every (start, end) pair (near pairs also with times of day on both ends, in both assignments); every fifth case also as a union whose members (and settlement calendars) each close only some of the weekdays; the holiday vector is handed over in date order, reversed, interleaved or with every date twice (by case index). (1b) long runs of 12, 35, 64, 367 and 430 (and one of 65 600) consecutive closures; four mask-only calendars around 0001-01-01 (years -1 .. 1), and from start instants inside a leap second at every weekday alignment, every i8 count from the days \
          around both ends of the run. (1c) a union built on one fresh thread and used on another on which a different union was built and used first. (2) named calendars (those with settlement calendars also wrapped in the CalType container): every date \
          of several years x every i8; every built-in calendar over every date 1970-2200 x a reduced count menu \
          (|n|<=10 and +-20,63,64,100,126,127,-128). Oracle: index arithmetic on the sorted list of the calendar's own \
